@@ -84,6 +84,7 @@ type world struct {
 	inner *atomic.Pointer[preconfirmed.ChainReader] // the storage's only field (checked by layoutOK)
 	wb    uint64                                    // oldestPreConf the writer passes (= slot of its last AdvanceTo)
 	roots []root                                    // every chain the storage ever published on this path
+	dumps pass                                      // canonical dump of each entry AS PUBLISHED (content keys only; immutability is always re-dumped)
 }
 
 type root struct {
@@ -96,7 +97,7 @@ const startWB = 3 // writer starts believing the head is at 2
 
 func newWorld() *world {
 	st := preconfirmed.NewChainStorage()
-	return &world{st: st, inner: (*atomic.Pointer[preconfirmed.ChainReader])(unsafe.Pointer(st)), wb: startWB}
+	return &world{st: st, inner: (*atomic.Pointer[preconfirmed.ChainReader])(unsafe.Pointer(st)), wb: startWB, dumps: pass{}}
 }
 
 // layoutOK guards the unsafe peek: ChainStorage must consist of exactly one atomic.Pointer[ChainReader].
@@ -235,7 +236,7 @@ func replay(path []op) *world {
 		before := w.inner.Load()
 		w.apply(o)
 		if cur := w.inner.Load(); cur != before && cur != nil {
-			w.roots = append(w.roots, root{view: *cur, dig: viewDigest(cur, pass{}), at: i + 1})
+			w.roots = append(w.roots, root{view: *cur, dig: viewDigest(cur, w.dumps), at: i + 1})
 		}
 	}
 	return w
@@ -255,6 +256,7 @@ type explorer struct {
 	errKinds                                                                      sync.Map
 	abandoned                                                                     atomic.Int64
 	splitAt                                                                       int
+	robust                                                                        bool
 	tasks                                                                         [][]op
 }
 
@@ -351,7 +353,7 @@ func (x *explorer) visit(w *world, path []op) bool {
 		npath := append(path[:len(path):len(path)], k.o)
 		nroots := len(w.roots)
 		if k.result != here && k.result != nil {
-			w.roots = append(w.roots, root{view: *k.result, dig: viewDigest(k.result, pass{}), at: len(npath)})
+			w.roots = append(w.roots, root{view: *k.result, dig: viewDigest(k.result, w.dumps), at: len(npath)})
 			if int64(k.result.Length()) > x.maxLen.Load() {
 				x.maxLen.Store(int64(k.result.Length()))
 			}
@@ -373,6 +375,50 @@ func (x *explorer) visit(w *world, path []op) bool {
 	return true
 }
 
+// visitRobust is the fallback used for a task after a confirmed immutability violation: objects shared between
+// sibling subtrees can no longer be trusted, so EVERY transition is executed on a world re-executed from scratch
+// (fresh storage, fresh wire objects). Slower by a factor of the depth, but the enumeration still completes and
+// every violating (path, op) is recorded.
+func (x *explorer) visitRobust(path []op) {
+	x.nodes.Add(1)
+	if len(path) >= x.depth {
+		return
+	}
+	if x.r.OutOfTime() {
+		x.r.Incomplete("time budget: some subtrees not explored")
+		return
+	}
+	alpha := replay(path).alphabet(x.cfg)
+	for _, o := range alpha {
+		w := replay(path)
+		here, wbHere := w.inner.Load(), w.wb
+		x.transitions.Add(1)
+		errText, panicText := w.apply(o)
+		if panicText != "" {
+			x.r.Violate("writer-panics "+string(o.Kind), map[string]any{"path": pathString(path), "op": o.String(), "panic": panicText})
+		}
+		if errText != "" {
+			x.errs.Add(1)
+		}
+		if bad := x.verifyRoots(w); len(bad) > 0 {
+			x.r.Violate("published-view-changed-after-later-operation by="+opClass(o.String()), map[string]any{"path": pathString(path), "culprit": o.String(),
+				"view_after": describe(&w.roots[bad[0]].view), "published_after_ops": w.roots[bad[0]].at, "mode": "every transition on a freshly replayed world"})
+			continue // the successor of a corrupting transition is not explored
+		}
+		cur := w.inner.Load()
+		if cur == here && w.wb == wbHere {
+			x.noops.Add(1)
+			continue
+		}
+		npath := append(path[:len(path):len(path)], o)
+		if cur != here && cur != nil {
+			w.roots = append(w.roots, root{view: *cur, dig: viewDigest(cur, w.dumps), at: len(npath)})
+		}
+		x.readers(w, npath)
+		x.visitRobust(npath)
+	}
+}
+
 // readers: at this position, a reader that read ANY head height h takes its snapshot. Every request that can
 // return a non-empty view, plus one on either side, is issued: q = h+1 in [o-1 .. t+1].
 func (x *explorer) readers(w *world, path []op) {
@@ -381,7 +427,7 @@ func (x *explorer) readers(w *world, path []op) {
 	if !empty {
 		lo, hi = o-1, t+1
 	}
-	p := pass{}
+	p := w.dumps
 	for q := lo; q <= hi; q++ {
 		v := w.st.SnapshotForBlock(q)
 		x.views.Add(1)
@@ -478,7 +524,7 @@ func TestCheck(t *testing.T) {
 	r.Set("A_reader_placements_covered", x.placements.Load())
 	r.Set("A_published_chain_rehashes", x.rootChecks.Load())
 	r.Set("A_max_chain_length", x.maxLen.Load())
-	r.Set("A_subtrees_abandoned_after_violation", x.abandoned.Load())
+	r.Set("A_tasks_redone_in_robust_mode_after_violation", x.abandoned.Load())
 	r.Set("view_contents_evaluated", chk.evalReal.Load())
 	r.Set("view_evaluations_memoised", chk.evalMemo.Load())
 	r.Set("state_reads", chk.stateReads.Load()+chk2.stateReads.Load())
@@ -521,6 +567,39 @@ func (x *explorer) merge(y *explorer) {
 	}
 }
 
+// collectRobust: robust-mode exploration of the top of the tree down to the split level, collecting tasks.
+func (x *explorer) collectRobust(path []op) {
+	x.robust = true
+	if len(path) == x.splitAt {
+		x.tasks = append(x.tasks, path)
+		return
+	}
+	x.nodes.Add(1)
+	alpha := replay(path).alphabet(x.cfg)
+	for _, o := range alpha {
+		w := replay(path)
+		here, wbHere := w.inner.Load(), w.wb
+		x.transitions.Add(1)
+		w.apply(o)
+		if bad := x.verifyRoots(w); len(bad) > 0 {
+			x.r.Violate("published-view-changed-after-later-operation by="+opClass(o.String()), map[string]any{"path": pathString(path), "culprit": o.String(),
+				"view_after": describe(&w.roots[bad[0]].view), "published_after_ops": w.roots[bad[0]].at, "mode": "every transition on a freshly replayed world"})
+			continue
+		}
+		cur := w.inner.Load()
+		if cur == here && w.wb == wbHere {
+			x.noops.Add(1)
+			continue
+		}
+		npath := append(path[:len(path):len(path)], o)
+		if cur != here && cur != nil {
+			w.roots = append(w.roots, root{view: *cur, dig: viewDigest(cur, w.dumps), at: len(npath)})
+		}
+		x.readers(w, npath)
+		x.collectRobust(npath)
+	}
+}
+
 // runExplorer explores the top of the tree inline, turns every node at depth 2 into a task (re-executed from
 // scratch on its own fresh storage) and runs the tasks on all cores.
 func runExplorer(x *explorer) {
@@ -530,14 +609,26 @@ func runExplorer(x *explorer) {
 	}
 	w := newWorld()
 	x.readers(w, nil)
-	x.visit(w, nil)
+	if !x.visit(w, nil) {
+		// confirmed immutability violation already in the top of the tree: everything in robust mode
+		x.abandoned.Add(1)
+		x.tasks, x.splitAt = nil, -1
+		x.nodes.Store(0)
+		x.splitAt = 2
+		x.collectRobust(nil)
+	}
 	tasks := x.tasks
+	robustAll := x.robust
 	x.tasks, x.splitAt = nil, -1
 	ev.Par(len(tasks), runtime.NumCPU(), func(i int) {
+		if robustAll {
+			x.visitRobust(tasks[i])
+			return
+		}
 		w := replay(tasks[i])
 		if !x.visit(w, tasks[i]) {
 			x.abandoned.Add(1)
-			x.r.Incomplete("subtrees abandoned after a confirmed immutability violation (shared objects corrupted)")
+			x.visitRobust(tasks[i])
 		}
 	})
 	for i := 0; i < len(tasks) && i < 2; i++ {
